@@ -205,6 +205,74 @@ def rule_joins(S, res):
     res.floor("join_sites", n_join, 4)
 
 
+# who may take a future with channel effects (or a closure producing one): the combinators whose
+# concurrency R8.join bounds, the await machinery, inert wrappers.  Anything else (FuturesOrdered /
+# FuturesUnordered, buffer_unordered, select, spawn, ...) polls several futures at once in a way no rule
+# here bounds.
+CONSUMERS_OK = (
+    "core::future::future::Future::poll", "core::future::into_future::IntoFuture::into_future",
+    "core::pin::Pin::<Ptr>::as_mut", "core::pin::Pin::<Ptr>::new_unchecked", "core::pin::Pin::<Ptr>::new",
+    "core::pin::Pin::<Ptr>::get_unchecked_mut", "core::pin::Pin::<Ptr>::map_unchecked_mut",
+    "futures_util::future::maybe_done::MaybeDone::<Fut>::output_mut", "futures_util::future::maybe_done::MaybeDone::<Fut>::take_output",
+    "tracing::instrument::Instrument::instrument", "tracing::instrument::Instrument::in_current_span",
+    "core::iter::traits::iterator::Iterator::map", "core::iter::traits::collect::IntoIterator::into_iter",
+    "core::iter::traits::iterator::Iterator::enumerate", "core::iter::traits::iterator::Iterator::zip",
+    "core::mem::drop", "alloc::boxed::Box::<T>::pin", "alloc::boxed::Box::<T>::new",
+)
+INERT_CONTAINER = ("alloc::vec::Vec<", "&mut alloc::vec::Vec<", "&alloc::vec::Vec<")
+CONTAINER_OPS = ("core::iter::traits::iterator::Iterator::collect", "core::iter::traits::collect::FromIterator::from_iter",
+                 "alloc::vec::Vec::<T, A>::push", "alloc::vec::Vec::<T>::new", "alloc::vec::Vec::<T>::with_capacity",
+                 "core::iter::traits::collect::Extend::extend")
+
+
+def rule_consumers(S, res):
+    """R8.consume: a future with channel effects, or a closure that builds one, is handed only to the
+    join combinators R8.join analyses, to the await machinery, or to an inert Vec."""
+    fg = S.fg
+    E = Eff(S)
+    n = 0
+    eff_def = {}
+
+    def effectful_def(d):
+        if d not in eff_def:
+            ub = E.unit_bodies(d)
+            eff_def[d] = bool(ub) and bool(E.dirs_of_bodies(ub))
+        return eff_def[d]
+    bad = 0
+    for k, b in engine_bodies(fg):
+        for bi, t in b.calls():
+            if bi not in b.live_blocks():
+                continue
+            names = callee_names(t)
+            if not names:
+                continue
+            tys = [a["p"]["ty"] for a in t["args"] if a["k"] != "const"]
+            dn = fg.node_of_place(k, t["d"])
+            dty = b.local_ty(dn[1]) if dn and dn[0] == k else ""
+            defs = set()
+            for ty in tys + [dty]:
+                for d in closure_defs_in_type(ty):
+                    if effectful_def(d):
+                        defs.add(d)
+            if not defs:
+                continue
+            n += 1
+            nm = names[0]
+            if nm in CONSUMERS_OK or nm in JOINS or any(x in fg.by_id for x in names):
+                continue
+            if nm in CONTAINER_OPS:
+                cty = dty if ("collect" in nm or "from_iter" in nm or "::new" in nm or "with_capacity" in nm) else (tys[0] if tys else "")
+                if cty.startswith(INERT_CONTAINER):
+                    continue
+            bad += 1
+            res.bad("R8.consume", "%s|%s" % (b.owner.replace("polytune::", ""), nm.rsplit("::", 2)[-2] + "::" + nm.rsplit("::", 1)[-1] if "::" in nm else nm),
+                    "a future with channel effects (or a closure building one: %s) is handed to %s; only try_join_all / try_join / .await bound how many "
+                    "operations per peer are outstanding" % (sorted(defs)[0].replace("polytune::", ""), nm), where(b, bi))
+    res.floor("future_consumer_sites", n, 300)
+    if not bad:
+        res.ok("R8.consume", "engine", "", "%d call sites take channel futures or their closures: all are join combinators, await machinery, creations or inert Vecs" % n)
+
+
 def rule_sequential(S, res):
     """Outside joins every channel operation is awaited before the next one is started."""
     fg = S.fg
